@@ -186,6 +186,21 @@ func SharedHintsIntact() string {
 	return ""
 }
 
+// encodeHintsSnapshot renders a hint map with the dynamic type of every value (keys in order).
+func encodeHintsSnapshot(h map[gozxing.EncodeHintType]interface{}) string {
+	keys := make([]int, 0, len(h))
+	for k := range h {
+		keys = append(keys, int(k))
+	}
+	sort.Ints(keys)
+	var sb strings.Builder
+	for _, k := range keys {
+		v := h[gozxing.EncodeHintType(k)]
+		fmt.Fprintf(&sb, "%d=(%T)%v;", k, v, v)
+	}
+	return sb.String()
+}
+
 // grayRow renders a module row with quiet zones as a gray image.
 func grayRow(mod []bool, quiet, scale, height int) *image.Gray {
 	w := (2*quiet + len(mod)) * scale
@@ -324,9 +339,17 @@ func BuildOps(r *fw.Rand, n int) []Op {
 			if r.Intn(3) == 0 { // decode-side character-set hint, in assorted spellings
 				dcs = []string{"UTF-8", "utf-8", "ISO-8859-1", "latin1", "l1", "Shift_JIS", "shift_jis", "sjis", "csShiftJIS", "windows-1251", "cp1251", "koi8-r", "KOI8-R", "us-ascii", "gbk", "GB2312"}[r.Intn(16)]
 			}
+			if r.Intn(3) == 0 {
+				hints[gozxing.EncodeHintType_MARGIN] = fmt.Sprint(r.Intn(6)) // string form, like the level
+			}
+			hintsAsBuilt := encodeHintsSnapshot(hints)
 			ops = append(ops, Op{"qr", func() string {
 				w := qrcode.NewQRCodeWriter()
 				bm, err := w.Encode(content, gozxing.BarcodeFormat_QR_CODE, 0, 0, hints)
+				// the hint map of this operation is read by the two goroutines that run it: it is theirs, not the writer's
+				if now := encodeHintsSnapshot(hints); now != hintsAsBuilt {
+					return "APRIORI-MISMATCH qr: the writer changed the caller's hint map from " + hintsAsBuilt + " to " + now
+				}
 				if err != nil {
 					return matrixHash(bm, err)
 				}
